@@ -142,13 +142,26 @@ def harness_bin(name, release=True):
 # verdict protocol
 
 def load_known():
-    p = os.path.join(VERIF, "known-findings.jsonl")
+    """known-findings.txt: `fixed: property=<id> <commit> <what>` (suppresses nothing) and
+    `known: property=<id> match="<text>" <what>` (a violation whose message contains <text> is a KNOWN-FINDING)"""
+    p = os.path.join(VERIF, "known-findings.txt")
     out = []
     if os.path.exists(p):
         for l in open(p):
             l = l.strip()
-            if l and not l.startswith("#"):
-                out.append(json.loads(l))
+            if not l or l.startswith("#"):
+                continue
+            m = re.match(r'(fixed|known): property=(\S+) (.*)$', l)
+            if not m:
+                continue
+            status, prop, rest = m.groups()
+            if status == "fixed":
+                commit, _, what = rest.partition(" ")
+                out.append({"status": "fixed", "property": prop, "commit": commit, "what": what})
+            else:
+                mm = re.match(r'match="([^"]*)" (.*)$', rest)
+                if mm:
+                    out.append({"status": "known", "property": prop, "match": mm.group(1), "what": mm.group(2)})
     return out
 
 
